@@ -374,6 +374,8 @@ pub struct SeedSpace {
     pub pair_sites: Vec<usize>,
     /// thorough: pairs of neighbouring header-level sites that are not both in `pair_sites` (x VALS2N grid)
     pub near_pairs: Vec<(usize, usize)>,
+    /// value grid of the neighbour pairs (VALS2N for a primary seed, VALS2 for a tier2 seed)
+    pub near_vals: Vec<usize>,
     /// thorough: number of trailing-data cases
     pub appends: usize,
 }
@@ -396,7 +398,7 @@ impl SeedSpace {
         (near * self.vals.len() + (self.field_sites.len() - near) * self.vals_far.len()) as u64
     }
     pub fn near_cases(&self) -> u64 {
-        self.near_pairs.len() as u64 * (VALS2N.len() * VALS2N.len()) as u64
+        self.near_pairs.len() as u64 * (self.near_vals.len() * self.near_vals.len()) as u64
     }
     pub fn dev(&self, mut i: u64) -> Dev {
         if i == 0 {
@@ -431,10 +433,10 @@ impl SeedSpace {
         if i >= self.pairs() * vv {
             i -= self.pairs() * vv;
             if i < self.near_cases() {
-                let nn = VALS2N.len() as u64;
+                let nn = self.near_vals.len() as u64;
                 let (a, b) = self.near_pairs[(i / (nn * nn)) as usize];
                 let vi = i % (nn * nn);
-                return Dev::Field2 { a, va: VALS2N[(vi / nn) as usize], b, vb: VALS2N[(vi % nn) as usize] };
+                return Dev::Field2 { a, va: self.near_vals[(vi / nn) as usize], b, vb: self.near_vals[(vi % nn) as usize] };
             }
             i -= self.near_cases();
             return Dev::Append(i as usize);
